@@ -30,8 +30,23 @@ CHECKS = {
              "The specification fails on the first field that crosses the end of the payload and never writes an attribute before that test; every truncation of complete messages of every identity is decoded by the real code and judged (rejected iff the spec rejects; accepted decodes compared attribute by attribute).", "3.4, 4/C06"),
     "C07": c("message", "TLC on the framing operators (MC_Frame) + TLC-judged histories construct/serialize/parse/repr",
              "Frame() is model-checked on all small payloads and the critical lengths; histories on real messages are judged with the frame rebuilt in TLA+ (CRC-24Q from Crc24q.tla) and the re-parsed snapshot compared with the spec's decode.", "3.5, 4/C07"),
+    "C08": c("crc", "TLC on the CRC-24Q algebra (MC_Crc: zero remainder, linearity, LFSR period > frame length, generator shape) + TLC-judged calc_crc24q/crc2bytes + damaged frames through the static parser",
+             "The pinned CRC-24Q is model-checked (all message pairs over 4 symbols, x^d mod g for every d up to the longest frame, even weight, degree 24); the real helpers are judged by TLC on all length classes and against the LFSR table for EVERY single-bit message of maximal length; every 1-bit, sampled/all 2-bit, odd-weight and burst<=24 damage of valid frames must be rejected by the static parser.", "3.3, 4/C08",
+             "Trusted: TLC 1.8, Crc24q.tla (pinned from the standard), CommunityModules Bitwise. The burst and odd-weight detection arguments are stated in MC_Crc.tla; TLC checks their premises (degree, constant term, weight) and the period bound."),
     "C09": c("decode", "TLC equivalence of declarative and loop-shaped MSM mapping (MC_MsmMaps) + TLC-judged MSM decodes against the pinned StdMsm tables",
              "All masks up to 5x3 are enumerated for the mapping lemma; every MSM identity x mask shapes (each satellite/signal position, empty, dense) x both label options is decoded by the real code and judged against RTCM 10403.3 numbering/RINEX codes.", "3.4, 4/C09"),
+    "C10": c("layout", "TLC evaluates layout predicates over the AST of every exported definition against the pinned StdLayout.tla + exact-size acceptance on the real decoder",
+             "WellFormed, FieldsDefined, CountersPrecede, BitsMatchStd (box of count vectors), SiblingsAgree and DispatchTotal are TLC invariants with one state per identity; for every identity a message of exactly the pinned length is accepted by the real code and one byte less is rejected.", "3.6, 4/C10",
+             "Trusted: TLC 1.8, StdLayout.tla (lengths written from RTCM 10403.3 / IGS SSR v1.00; 1022, 1024 and 1300-1305 are marked prov=tree = regression oracle only), the syntactic exporter. A same-width transposition inside a type without siblings is invisible to this property as worded."),
+    "C11": c("socket", "TLA+ spec of the socket buffer (SockBuf.tla): TLC over all sources x all partitions x bufsizes x call sequences x failures + TLC-judged traces of the real SocketWrapper",
+             "PrefixOK/SizeOK/TimeoutKeepsData are checked exhaustively for small sources; recorded executions over a scripted socket.socket subclass are validated event by event (every recv, return value and public buffer), segmentation independence and socket-vs-file equality are compared on the real code.", "3.2, 4/C11",
+             "Trusted: TLC 1.8, SockBuf.tla, the scripted socket double. recv() is assumed to return at most bufsize bytes."),
+    "C12": c("socket", "TLC equivalence of the code-shaped chunk decoder and the RFC 9112 grammar decoder over all partitions (MC_Sock chunked) + envelope trace validation of the real wrapper for every cut position",
+             "All well-formed bodies from a chunk pool x all partitions x bufsizes; on the real code every single and double cut of small bodies and random partitions of large bodies under chunked, gzip, compress and deflate: delivered ++ buffer is always a prefix of the decoded stream and contains every complete chunk.", "3.2, 4/C12",
+             "Trusted: TLC 1.8, Dechunk.tla (Ref written from RFC 9112), Python zlib for the inflate dictionary. Only well-formed bodies without chunk extensions are in scope."),
+    "C13": c("parallel", "TLC over all work-list pairs and interleavings of two Decode instances (Parallel.tla: TablesConst, HistoryFree) + TLC-generated schedules driving a deterministic thread scheduler on the real code; every result judged history-free by DecodeJudge",
+             "Histories of up to 3 operations over 8 payload classes and three entry points run in one process with table digests after every operation; 2-4 threads follow TLC-generated schedules at function-call granularity plus a free-running stress at 1 us switch interval; every single result is judged by the specification, which knows no history.", "3.7, 4/C13",
+             "Trusted: TLC 1.8, Decode.tla, threading.settrace as yield-point mechanism. Bytecode-level pre-emption is only sampled (stress run)."),
     "C14": c("message", "TLC action property Frozen on Lifecycle.tla + TLC-judged assignment histories with full snapshots",
              "The life-cycle spec is model-checked for every name and operation order; on real messages every attempted assignment must raise RTCMMessageError and the post-snapshot must equal the state the spec derives from the payload.", "3.5, 4/C14"),
     "C15": c("message", "TLC exhaustive over 4096 numbers x 256 sub-types (MC_Identity) + exhaustive header sweep on the real code judged by TLC",
@@ -51,6 +66,14 @@ ENGINES = [
          kind_free_text="TLA+ small-step spec of the payload-definition interpreter; TLC model checking on mini-definitions; TLC as judge of recorded decodes of the real code"),
     dict(name="message", path="spec/Message.tla spec/Lifecycle.tla spec/MC_Frame.tla spec/MC_Identity.tla spec/MC_Names.tla harness/message_rec.py",
          kind_free_text="TLA+ operators for framing, identity, immutability and derived views over the decode state; TLC-judged operation histories on real message objects"),
+    dict(name="crc", path="spec/Crc24q.tla spec/MC_Crc.tla spec/CrcJudge.tla harness/props/c08.py",
+         kind_free_text="pinned CRC-24Q in TLA+ (bit-serial + table form), TLC-checked algebra, TLC as judge of the real checksum helpers"),
+    dict(name="layout", path="spec/Layout.tla spec/StdLayout.tla harness/props/c10.py",
+         kind_free_text="TLC evaluates layout predicates over the exported definition ASTs against pinned standard length formulas and sibling relations"),
+    dict(name="socket", path="spec/SockBuf.tla spec/Dechunk.tla spec/MC_Sock.tla spec/SockTrace.tla harness/sock_engine.py harness/sock_rec.py harness/sockdouble.py",
+         kind_free_text="TLA+ spec of the socket buffer and chunk decoder; TLC over all segmentations; TLC trace validation of the real SocketWrapper over a scripted socket"),
+    dict(name="parallel", path="spec/Parallel.tla harness/parallel_run.py harness/props/c13.py",
+         kind_free_text="two Decode instances with work lists and shared tables; TLC over all interleavings; TLC-generated schedules for a deterministic thread scheduler on the real code"),
     dict(name="framer", path="spec/Framer.tla spec/MC_Framer.tla spec/FramerTrace.tla harness/framer_engine.py harness/framer_replay.py",
          kind_free_text="TLA+ spec of RTCMReader.read as a state machine driven by a faulty stream; TLC model checking, replay of the state graph into the real reader, TLC trace validation"),
 ]
